@@ -23,6 +23,7 @@ import QV.Proofs.Observe
 import QV.Proofs.PropDep
 import QV.Gen.VerifEnv
 import QV.Proofs.PropDepBuild
+import QV.Proofs.InterpEntry
 
 namespace QV.Props.C02
 open QV.Model QV.Model.Observe QV.Proofs.Observe QV.Proofs.PropDep
@@ -373,3 +374,60 @@ end QV.Props.C02
 #print axioms QV.Props.C02.build_analysis_never_panics
 #print axioms QV.Props.C02.build_propdep_covers
 #print axioms QV.Props.C02.build_binding_current
+
+
+/-! ## APPENDED SECTION 2 — which bodies are folded to a constant (tir/interpret.rs `evaluate_code`)
+
+  A binding whose body `evaluate_code` evaluates to a value is written to the .ui file as a constant and gets NO
+  update path; every other accepted binding gets `setup`/`update`/`eval` code (uigen).  So "stays current" also
+  needs: a body that depends on the state is not evaluated as a constant.  The model (`QV.Model.evaluateCode`, tied
+  by the `eval` field of the exact-IR stream) looks at the ENTRY block in its constant fast path, like the code
+  (`code.basic_blocks[0]`), and otherwise walks from the entry block, giving up at the first conditional branch
+  and at the first property read (`QV.Proofs.InterpEntry`).  (Round-4 seed C02/7 made the fast path look at the
+  LAST block: `{ if (check.checked) return edit.text; "Unchecked" }` became the constant "Unchecked".) -/
+
+namespace QV.Props.C02
+open QV.Model QV.Proofs.InterpEntry
+
+/-- a body evaluated as a constant: its ENTRY block returns a constant (and that constant is the value), or the
+    entry block neither branches on a condition nor assigns a property read -/
+theorem evaluated_constant_entry (env : Env) (code : CodeBody) (v : EvaluatedValue)
+    (h : evaluateCode env code = .value (some v)) :
+    ∃ b0, code.blocks[0]? = some b0 ∧
+      ((∃ cv, b0.terminator = some (.ret (.const cv)) ∧ toEvaluatedValue env [] (.const cv) .noTr = some v) ∨
+       ((∀ c x y, b0.terminator ≠ some (.brCond c x y)) ∧
+        ∀ l a p, Statement.assign l (.readProperty a p) ∉ b0.statements)) :=
+  QV.Proofs.InterpEntry.evaluated_constant_entry env code v h
+
+/-- a body whose entry block ends in a conditional branch (`if`, `switch`, `?:`, `&&`, `||` on the way to the result)
+    is never folded to a constant — whatever its last block returns -/
+theorem branching_entry_not_constant (env : Env) (code : CodeBody) (b0 : BasicBlock) (c : Operand) (x y : Nat)
+    (hb : code.blocks[0]? = some b0) (ht : b0.terminator = some (.brCond c x y)) :
+    ∀ v, evaluateCode env code ≠ .value (some v) :=
+  QV.Proofs.InterpEntry.branching_entry_not_constant env code b0 c x y hb ht
+
+/-- a body whose entry block assigns a property read and does not return a constant is never folded to a constant -/
+theorem reading_entry_not_constant (env : Env) (code : CodeBody) (b0 : BasicBlock) (l : Nat) (a : Operand) (p : PropInfo)
+    (hb : code.blocks[0]? = some b0) (hs : Statement.assign l (.readProperty a p) ∈ b0.statements)
+    (hne : ∀ cv, b0.terminator ≠ some (.ret (.const cv))) :
+    ∀ v, evaluateCode env code ≠ .value (some v) :=
+  QV.Proofs.InterpEntry.reading_entry_not_constant env code b0 l a p hb hs hne
+
+/-- the seed's witness shape: the entry block branches, the LAST block returns a literal -/
+def lastBlockLiteral : CodeBody :=
+  { blocks := [{ statements := [.assign 0 (.readProperty (.namedObject "a" "VBase") bP)],
+                 terminator := some (.brCond (.local 0 .bool) 1 2) },
+               { statements := [.assign 1 (.readProperty (.namedObject "a" "VBase") sP)],
+                 terminator := some (.ret (.local 1 .string)) },
+               { statements := [], terminator := some (.ret (.const (.qstring ['U']))) }],
+    locals := [.bool, .string] }
+
+/-- … it is not a constant, for any environment -/
+example (env : Env) : ∀ v, evaluateCode env lastBlockLiteral ≠ .value (some v) :=
+  branching_entry_not_constant env lastBlockLiteral _ _ _ _ rfl rfl
+
+end QV.Props.C02
+
+#print axioms QV.Props.C02.evaluated_constant_entry
+#print axioms QV.Props.C02.branching_entry_not_constant
+#print axioms QV.Props.C02.reading_entry_not_constant
